@@ -34,6 +34,10 @@ class LazyIter(object):
         self.fn, self.sentinel = fn, sentinel
 
 
+class DepthBound(Undecided):
+    pass
+
+
 class Raised(Exception):
     def __init__(self, value, node):
         self.value, self.node = value, node
@@ -62,6 +66,7 @@ class Cut(Exception):
 
 
 NOT_HANDLED = object()
+_NO_SUPER = object()
 
 
 class Run(object):
@@ -128,10 +133,47 @@ class Explorer(object):
         raise _NeedChoice(len(options))
 
     # ---- functions
+    def find_method(self, clsname, m, above=False):
+        """the definition of method m that an instance of class clsname uses (own definition, else the bases' in order); with above=True
+        the search starts in the bases (what `super` names)"""
+        seen = set()
+
+        def rec(cn, skip):
+            if cn in seen or len(seen) > 8:
+                return None
+            seen.add(cn)
+            if not skip:
+                fd = self.port.func(self.modname, '{}.{}'.format(cn, m), required=False)
+                if fd is not None:
+                    return fd
+            cdef = self.port.cls(self.modname, cn, required=False)
+            for b in (cdef.bases if cdef is not None else []):
+                if isinstance(b, ast.Name):
+                    fd = rec(b.id, False)
+                    if fd is not None:
+                        return fd
+            return None
+        return rec(clsname, above)
+
+    def _defining_class(self):
+        fd = self._fd_stack[-1] if getattr(self, '_fd_stack', None) else None
+        while fd is not None and not isinstance(fd, ast.ClassDef):
+            fd = getattr(fd, 'parent', None)
+        return fd.name if fd is not None else None
+
     def call_fd(self, fd, args, kwargs=None, outer=None):
+        if not hasattr(self, '_fd_stack'):
+            self._fd_stack = []
+        self._fd_stack.append(fd)
+        try:
+            return self._call_fd(fd, args, kwargs, outer)
+        finally:
+            self._fd_stack.pop()
+
+    def _call_fd(self, fd, args, kwargs=None, outer=None):
         self.depth += 1
-        if self.depth > 6:
-            raise Undecided('call depth bound reached in abstract exploration', fd)
+        if self.depth > getattr(self, 'max_depth', 6):
+            raise DepthBound('call depth bound reached in abstract exploration', fd)
         params = [a.arg for a in fd.args.args]
         env = dict(outer) if outer else {}       # a closure reads the variables of the function it was defined in (as they are now)
         defaults = fd.args.defaults
@@ -241,6 +283,12 @@ class Explorer(object):
                     del base[idx]
                 elif isinstance(base, dict) and idx in base:
                     del base[idx]
+                elif isinstance(base, list) and isinstance(t.slice, ast.Slice) and t.slice.step is None:
+                    lo = self.expr(t.slice.lower, env) if t.slice.lower is not None else None
+                    hi = self.expr(t.slice.upper, env) if t.slice.upper is not None else None
+                    if not all(b_ is None or (isinstance(b_, int) and not isinstance(b_, bool)) for b_ in (lo, hi)):
+                        raise Undecided('del of a slice with abstract bounds', st)
+                    del base[lo:hi]
                 else:
                     raise Undecided('del outside the abstract interpreter', st)
         elif isinstance(st, ast.Try):
@@ -348,7 +396,7 @@ class Explorer(object):
             c = self.port.module_consts(self.modname).get(e.id, NOT_HANDLED) if hasattr(self.port, 'module_consts') else NOT_HANDLED
             if c is not NOT_HANDLED:
                 return c
-            if e.id in ('len', 'iter', 'str', 'int', 'bool', 'list', 'tuple', 'isinstance', 'range', 'enumerate', 'min', 'max', 'any', 'all', 'type', 'set', 'Set', 'sorted', 'sum', 'Map', 'dict', 'Array', '__regex__', 'reversed'):
+            if e.id in ('len', 'iter', 'str', 'int', 'bool', 'list', 'tuple', 'isinstance', 'range', 'enumerate', 'min', 'max', 'any', 'all', 'type', 'set', 'Set', 'sorted', 'sum', 'Map', 'dict', 'Array', '__regex__', 'reversed', 'Boolean', 'map', 'filter', 'zip'):
                 return ('builtin', e.id)
             if e.id in getattr(self.port, 'modules', {}) or e.id in ('re', 'os', 'sys', 'math', 'JSON', 'Math', 'Object', 'Buffer', 'csv_utils', 'rbql_engine', 'rbql'):
                 return ('global', e.id)
@@ -359,8 +407,17 @@ class Explorer(object):
             mod_ = getattr(self.port, 'modules', {}).get(self.modname)
             if mod_ is not None:
                 defs_ = [st for st in mod_.body if isinstance(st, ast.Assign) and len(st.targets) == 1 and isinstance(st.targets[0], ast.Name) and st.targets[0].id == e.id]
-                if len(defs_) == 1 and not any(isinstance(x, (ast.Name,)) and x.id not in ('Map', 'Set', 'dict', 'set', 'list', 'tuple') for x in ast.walk(defs_[0].value)):
+                def plain_(x):
+                    # names a module-level table may mention: container constructors, module functions, module constants
+                    return x.id in ('Map', 'Set', 'dict', 'set', 'list', 'tuple', 'None', 'True', 'False', 'null', 'undefined') or x.id in self.port.module_consts(self.modname) \
+                        or isinstance(self.port.func(self.modname, x.id, required=False), ast.FunctionDef)
+                if len(defs_) == 1 and isinstance(defs_[0].value, (ast.Dict, ast.List, ast.Tuple, ast.Set, ast.Call, ast.Constant)) and all(plain_(x) for x in ast.walk(defs_[0].value) if isinstance(x, ast.Name)) \
+                        and not any(isinstance(x, ast.Call) and not (isinstance(x.func, ast.Name) and x.func.id in ('Map', 'Set', 'dict', 'set', 'list', 'tuple', 'frozenset')) for x in ast.walk(defs_[0].value)):
                     return self.expr(defs_[0].value, {})
+                if len(defs_) == 1 and isinstance(defs_[0].value, ast.Call) and isinstance(defs_[0].value.func, ast.Attribute) and isinstance(defs_[0].value.func.value, ast.Name) and defs_[0].value.func.value.id == 're' \
+                        and defs_[0].value.func.attr == 'compile' and len(defs_[0].value.args) == 1 and isinstance(defs_[0].value.args[0], ast.Constant) and isinstance(defs_[0].value.args[0].value, str) and not defs_[0].value.keywords:
+                    import re as _re
+                    return _re.compile(defs_[0].value.args[0].value)        # a compiled pattern constant of the module
             raise Undecided('name {} unknown in abstract exploration'.format(e.id), e)
         if isinstance(e, (ast.List, ast.Tuple)):
             vals = [self.expr(x, env) for x in e.elts]
@@ -454,6 +511,19 @@ class Explorer(object):
 
     def attr(self, node, obj, name):
         if isinstance(obj, tuple) and len(obj) == 2 and obj[0] == 'global':
+            if obj[1] in getattr(self.port, 'modules', {}) and obj[1] != self.modname:
+                # a name of another library module: its function, or its module-level value (evaluated in that module)
+                fd_ = self.port.func(obj[1], name, required=False)
+                if isinstance(fd_, ast.FunctionDef):
+                    return ('modfunc', obj[1], fd_)
+                keep = self.modname
+                self.modname = obj[1]
+                try:
+                    return self.expr(ast.copy_location(ast.Name(id=name, ctx=ast.Load()), node), {})
+                except Undecided:
+                    pass
+                finally:
+                    self.modname = keep
             return ('global', obj[1] + '.' + name)
         if isinstance(obj, Abs) and (obj.uid, name) in self.run.state:
             return self.run.state[(obj.uid, name)]
@@ -465,6 +535,13 @@ class Explorer(object):
                 return v[1] if isinstance(v, tuple) and v and v[0] == 'nomemo' else v
         if name == 'length' and isinstance(obj, (list, tuple, str)):
             return len(obj)
+        import re as _re
+        if isinstance(obj, (_re.Pattern, _re.Match)):
+            return ('method', obj, name)
+        if name == 'size' and isinstance(obj, set):
+            return len(obj)
+        if isinstance(obj, set):
+            return ('method', obj, name)
         if isinstance(obj, dict) and getattr(self.port, 'name', 'py') == 'js' and not hasattr(obj, 'default_factory'):
             # a JS object literal: property read (a missing property is undefined)
             if name in obj or name not in ('get', 'set', 'has', 'keys', 'values', 'entries', 'hasOwnProperty', 'delete', 'size'):
@@ -547,6 +624,9 @@ class Explorer(object):
         fname = dotted(e.func) or ''
         recv = None
         fval = None
+        sup = self._super_call(e, env)
+        if sup is not _NO_SUPER:
+            return sup
         if isinstance(e.func, ast.Attribute):
             if isinstance(e.func.value, ast.Name) and e.func.value.id not in env and (e.func.value.id in ('JSON', 'Math', 'Object', 'Array', 'Number', 'String', 'Buffer', 're', 'os', 'sys', 'math') or e.func.value.id in getattr(self.port, 'modules', {})):
                 recv = ('global', e.func.value.id)
@@ -563,6 +643,15 @@ class Explorer(object):
             v = self.on_call(self, e, fname, recv, args)
             if v is not NOT_HANDLED:
                 return v
+        if isinstance(e.func, ast.Attribute) and isinstance(recv, tuple) and len(recv) == 2 and recv[0] == 'global' and recv[1] in getattr(self.port, 'modules', {}) and recv[1] != self.modname and self.follow:
+            fd_ = self.port.func(recv[1], e.func.attr, required=False)
+            if isinstance(fd_, ast.FunctionDef):
+                keep = self.modname
+                self.modname = recv[1]
+                try:
+                    return self.call_fd(fd_, args, kwargs)
+                finally:
+                    self.modname = keep
         if isinstance(e.func, ast.Attribute):
             m = e.func.attr
             # an attribute that holds a bound method (`self.polymorphic_get_key = self.get_single_key`)
@@ -579,7 +668,7 @@ class Explorer(object):
                 return max(args) if m == 'max' else min(args)
             # a method of the class under analysis
             if isinstance(recv, Abs) and recv.kind == 'Self' and self.follow and self.cls is not None:
-                fd = self.port.func(self.modname, '{}.{}'.format(self.cls, m), required=False)
+                fd = self.find_method(self.cls, m)
                 if fd is not None:
                     return self.call_fd(fd, [recv] + args if fd.args.args and fd.args.args[0].arg in ('self', 'this') else args, kwargs)
             return self.method(recv, m, args, e)
@@ -587,9 +676,21 @@ class Explorer(object):
         if isinstance(fval, tuple) and fval and fval[0] == 'builtin':
             return self.builtin(fval[1], args, e)
         if isinstance(fval, tuple) and fval and fval[0] == 'closure':
+            if self.on_call is not None and isinstance(e.func, ast.Name) and fval[1].name != e.func.id and not fval[2]:
+                # a module function called through a variable: the model sees it under the function's own name too
+                v = self.on_call(self, e, fval[1].name, None, args)
+                if v is not NOT_HANDLED:
+                    return v
             return self.call_fd(fval[1], args, kwargs, outer=fval[2])
         if isinstance(fval, tuple) and fval and fval[0] == 'method':
             return self.method(fval[1], fval[2], args, e)
+        if isinstance(fval, tuple) and fval and fval[0] == 'modfunc':
+            keep = self.modname
+            self.modname = fval[1]
+            try:
+                return self.call_fd(fval[2], args, kwargs)
+            finally:
+                self.modname = keep
         if isinstance(fval, tuple) and fval and fval[0] == 'lambda':
             lam, lenv = fval[1], dict(fval[2])
             for p_, a_ in zip([a.arg for a in lam.args.args], args):
@@ -600,6 +701,40 @@ class Explorer(object):
             if fd is not None:
                 return self.call_fd(fd, args, kwargs)
         raise Undecided('call of {} is outside the abstract interpreter'.format(fname or ast.unparse(e.func)), e)
+
+    def _super_call(self, e, env):
+        """`super().m(...)`, `super(C, self).m(...)`, `Base.m(self, ...)` (Python) and `super(...)`, `super.m(...)` (JS): the base-class
+        definition applied to the current receiver; _NO_SUPER when e is no such call"""
+        if self.cls is None or not self.follow:
+            return _NO_SUPER
+        f = e.func
+        here = self._defining_class()
+        selfv = env.get('self', env.get('this'))
+        if selfv is None:
+            return _NO_SUPER
+        m, explicit_self = None, False
+        base = None
+        if isinstance(f, ast.Name) and f.id == 'super' and 'super' not in env:
+            m = '__init__'                                                   # JS: super(a, b)
+        elif isinstance(f, ast.Attribute) and isinstance(f.value, ast.Name) and f.value.id == 'super' and 'super' not in env:
+            m = f.attr                                                       # JS: super.m(a)
+        elif isinstance(f, ast.Attribute) and isinstance(f.value, ast.Call) and isinstance(f.value.func, ast.Name) and f.value.func.id == 'super':
+            m = f.attr                                                       # super().m(a) / super(C, self).m(a)
+            if f.value.args and isinstance(f.value.args[0], ast.Name):
+                here = f.value.args[0].id
+        elif isinstance(f, ast.Attribute) and isinstance(f.value, ast.Name) and f.value.id not in env and self.port.cls(self.modname, f.value.id, required=False) is not None \
+                and e.args and isinstance(e.args[0], ast.Name) and e.args[0].id in ('self', 'this'):
+            m, explicit_self, base = f.attr, True, f.value.id                # Base.m(self, a)
+        if m is None or here is None:
+            return _NO_SUPER
+        fd = self.find_method(base, m) if base is not None else self.find_method(here, m, above=True)
+        if fd is None:
+            if m == '__init__' and base is None:
+                return None       # object.__init__: nothing to do
+            raise Undecided('base-class method {} is not found'.format(m), e)
+        args = [self.expr(a, env) for a in (e.args[1:] if explicit_self else e.args)]
+        kwargs = {k.arg: self.expr(k.value, env) for k in e.keywords if k.arg}
+        return self.call_fd(fd, [selfv] + args, kwargs)
 
     def apply(self, f, args, node):
         if isinstance(f, tuple) and f and f[0] == 'lambda':
@@ -612,6 +747,21 @@ class Explorer(object):
         raise Undecided('call of {!r} is outside the abstract interpreter'.format(f), node)
 
     def builtin(self, name, args, node):
+        if name in ('map', 'filter') and len(args) == 2 and isinstance(args[1], (list, tuple, LazyIter)):
+            seq = list(self.iterate(args[1], node))
+            f = args[0]
+
+            def ap(x):
+                if isinstance(f, tuple) and f and f[0] == 'builtin':
+                    return self.builtin(f[1], [x], node)
+                if f is None and name == 'filter':
+                    return x
+                return self.apply(f, [x], node)
+            return [ap(x) for x in seq] if name == 'map' else [x for x in seq if self.truth(ap(x), node)]
+        if name == 'zip' and args and all(isinstance(a, (list, tuple)) for a in args):
+            return [tuple(t) for t in zip(*args)]
+        if name in ('bool', 'Boolean') and len(args) == 1:
+            return self.truth(args[0], node)
         if name == 'len' and len(args) == 1 and isinstance(args[0], (list, tuple, str, dict, set)):
             return len(args[0])
         if name == 'iter' and len(args) == 2:
@@ -676,6 +826,23 @@ class Explorer(object):
         raise Undecided('builtin {} on {!r}'.format(name, args), node)
 
     def method(self, recv, m, args, node):
+        import re as _re
+        if isinstance(recv, _re.Pattern):
+            if m in ('search', 'match', 'fullmatch') and args and isinstance(args[0], str) and all(isinstance(a, int) for a in args[1:]):
+                return getattr(recv, m)(*args)
+            if m in ('findall', 'split') and len(args) == 1 and isinstance(args[0], str):
+                return getattr(recv, m)(args[0])
+            if m == 'finditer' and args and isinstance(args[0], str) and all(isinstance(a, int) for a in args[1:]):
+                return list(recv.finditer(*args))
+            raise Undecided('regex method {} on {!r} is outside the abstract interpreter'.format(m, args), node)
+        if isinstance(recv, _re.Match):
+            if m in ('span', 'start', 'end', 'group', 'groups') and all(isinstance(a, int) for a in args):
+                return getattr(recv, m)(*args)
+            raise Undecided('match method {} is outside the abstract interpreter'.format(m), node)
+        if recv == ('global', 're') and m == 'compile' and args and isinstance(args[0], str) and all(isinstance(a, int) for a in args[1:]):
+            return _re.compile(*args)
+        if recv == ('global', 're') and m in ('search', 'match', 'split', 'findall') and len(args) == 2 and isinstance(args[0], str) and isinstance(args[1], str):
+            return getattr(_re, m)(args[0], args[1])
         if isinstance(recv, list):
             if m in ('append', 'push') and len(args) == 1:
                 recv.append(args[0])
@@ -806,6 +973,10 @@ class Explorer(object):
                 return None
             if m == 'has' and len(args) == 1:
                 return args[0] in recv
+            if m in ('discard', 'delete') and len(args) == 1:
+                had = args[0] in recv
+                recv.discard(args[0])
+                return had if m == 'delete' else None
         if isinstance(recv, dict):
             if m == 'get' and 1 <= len(args) <= 2:
                 return recv.get(args[0], args[1] if len(args) == 2 else None)
